@@ -11,4 +11,9 @@ means completion height = h, which is what `pendingRecords` of the model impleme
 (without the separator, 0x10 would also match 0x100…: the repaired defect F-03b) -/
 theorem C03_tie_pending_prefix : pendingPrefixHasSeparator = true := by decide
 
+/-- SetUndelegationRecords refuses a record only when its completion height is strictly below the
+current height — the model's `setRecord` (`if r.completeBlock < s.height then error`); a record due in
+the current block (a held record re-queued for the first block after a genesis import) is stored -/
+theorem C03_tie_set_records_guard : setRecordsRejectsPastOnly = true := by decide
+
 end ExoVerif.Ledger
